@@ -135,9 +135,52 @@ let do_find flen dlen comps =
   | Ok (Some o) -> if int_of_z o.ff_found < 0 then "find=NULL" else "find=found"
   | Fault f -> show_fault f
 
+(* tmpf <envk> <dirlen> <tplhex> <len> <cap> <umask-octal> <picks> <nexist> <flags>   (spiftool_temp_file, one call)
+   the directory is dirlen times 'd' here and the harness's work directory spelled with dirlen characters there: only its
+   length enters the result, and both sides print it as "D+" *)
+let do_tmpf envk dirlen tplhex len cap um picks nexist flags =
+  let n = int_of_string dirlen in
+  let dir = List.init n (fun _ -> z_of_int 100) in
+  let tplb = if tplhex = "-" then [] else zbytes_of_hex tplhex in
+  let len = int_of_string len and cap = int_of_string cap in
+  let um = int_of_string ("0o" ^ um) in
+  let nexist = int_of_string nexist in
+  let picks = if envk = "N" then [str_of_ascii "XXXXXX"] else if picks = "-" then [] else List.map str_of_ascii (String.split_on_char ',' picks) in
+  let slash = z_of_int 47 in
+  let tmpdir, tmp = match envk with
+    | "D" | "K" -> Some dir, None
+    | "M" -> None, Some dir
+    | "B" -> Some dir, Some (str_of_ascii "/nonexistent-lv")
+    | _ -> None, None in
+  let pre = List.filteri (fun i _ -> i < nexist) picks in
+  let files0 = List.map (fun p -> (dir @ [slash] @ tplb @ p, z_of_int 0o644)) pre in
+  let tplbuf = List.map (fun b -> Some b) tplb @ [Some Z0] @ List.init (cap - List.length tplb - 1) (fun _ -> None) in
+  let o = { o_dir_ok = (envk <> "K"); o_picks = picks; o_fd = z_of_int 7; o_fchmod_ok = not (String.contains flags 'F') } in
+  match temp_file (env2 tmpdir tmp) tplbuf (z_of_int len) (world0 (z_of_int um) files0) o with
+  | Fault f -> show_fault f
+  | Ok ((r, t), w) ->
+    let rec cstr = function Some c :: tl when int_of_z c <> 0 -> int_of_z c :: cstr tl | _ -> [] in
+    let s = cstr t in
+    let d = List.map int_of_z dir in
+    let rec is_prefix a b = match a, b with [], _ -> true | x :: a', y :: b' -> x = y && is_prefix a' b' | _ -> false in
+    let rec drop k l = if k = 0 then l else match l with [] -> [] | _ :: tl -> drop (k - 1) tl in
+    let hex_of_ints l = if l = [] then "" else hex_of_ints l in
+    let show_name s =
+      if n > 0 && is_prefix d s then "D+" ^ hex_of_ints (drop n s)
+      else if n > 0 && s <> [] && is_prefix s d then Printf.sprintf "d%d" (List.length s)
+      else if s = [] then "-" else hex_of_ints s in
+    let ok = int_of_z r >= 0 in
+    let mode = if ok then (match fd_mode w r with Some m -> Printf.sprintf "%o" (int_of_z m) | None -> "?") else "-" in
+    let files = if envk = "N" || envk = "K" then "-" else
+        let l = List.map (fun (nm, m) -> (hex_of_ints (drop (n + 1) (List.map int_of_z nm)), int_of_z m)) w.w_files in
+        let l = List.sort compare l in
+        if l = [] then "-" else String.concat "," (List.map (fun (a, m) -> Printf.sprintf "%s:%o" a m) l) in
+    Printf.sprintf "ret=%s tpl=%s um=%o mode=%s files=%s" (if ok then "ok" else "-1") (show_name s) (int_of_z w.w_umask) mode files
+
 let run = function
   | "hist" :: toks -> do_hist toks
   | ["find"; flen; dlen; comps] -> do_find flen dlen comps
+  | ["tmpf"; a; b; c; d; e; f; g; h; i] -> do_tmpf a b c d e f g h i
   | ["temp"; _] -> "temp fail=0 badmode=0 dup=0 outside=0"
   | _ -> "DRIVER-ERROR:bad-case"
 let () = main_loop run
